@@ -449,6 +449,8 @@ def rule_pointers(ctx, prop='C04'):
 def dict_literal_of(func, var=None):
     '''The single dict literal assigned to a local in a state writer (whatever the local is called).'''
     got = [n.value for n in func.own_nodes() if isinstance(n, ast.Assign) and isinstance(n.targets[0], ast.Name) and isinstance(n.value, ast.Dict)]
+    if not got:     # the literal may be written in place: batch.put(b'state', repr({...}).encode())
+        got = [n for n in func.own_nodes() if isinstance(n, ast.Dict) and n.keys and all(isinstance(k, ast.Constant) and isinstance(k.value, str) for k in n.keys)]
     return got[0] if len(got) == 1 else None
 
 
